@@ -66,7 +66,7 @@ func (p *Deliver) IDecode(data []byte) error {
 	p.TpUdhi = b.ReadUint8()
 	p.MessageCoding = b.ReadUint8()
 	p.MessageLength = b.ReadUint32()
-	p.MessageContent = string(b.ReadNBytes(int(p.MessageLength)))
+	p.MessageContent = string(b.ReadNBytes(messageLen(p.MessageLength)))
 	p.Reserved = b.ReadCStringN(8)
 	return b.Error()
 }
